@@ -19,11 +19,13 @@ func (x *Exec) guardCheck(st *State, p Val, write bool) {
 		return
 	}
 	field := p.prefix()
-	x.guardCheckField(st, field, p.T(), write)
+	x.guardCheckField(st, field, p.T(), write, true)
 }
 
-func (x *Exec) guardCheckField(st *State, field string, ref Term, write bool) {
-	if ws, ok := x.eng.immutable[field]; ok && write && !isFreshTerm(ref) {
+// direct: the field itself is accessed (a store replaces its value); false for accesses to the contents
+// of the map the field holds, which immutable declarations do not restrict.
+func (x *Exec) guardCheckField(st *State, field string, ref Term, write bool, direct bool) {
+	if ws, ok := x.eng.immutable[field]; ok && write && direct && !isFreshTerm(ref) {
 		allowed := false
 		me := shortFuncName(funcKey(x.fn))
 		for _, w := range ws {
@@ -33,9 +35,9 @@ func (x *Exec) guardCheckField(st *State, field string, ref Term, write bool) {
 		}
 		name := "immutable:" + field
 		if allowed {
-			st.obls = append(st.obls, Obl{Name: name, Tags: []string{"C08", "C09"}, Goal: TTrue, PCLen: len(st.pc), Static: "ok", Desc: field + " written by a declared writer"})
+			st.obls = append(st.obls, Obl{Name: name, Tags: []string{"C03", "C08", "C09"}, Goal: TTrue, PCLen: len(st.pc), Static: "ok", Desc: field + " written by a declared writer"})
 		} else {
-			st.obligeStaticFail(name, []string{"C08", "C09"}, "write of "+field+" outside its declared writers "+strings.Join(ws, ", "))
+			st.obligeStaticFail(name, []string{"C03", "C08", "C09"}, "write of "+field+" outside its declared writers "+strings.Join(ws, ", "))
 		}
 	}
 	if x.spec.OnceBody {
@@ -138,7 +140,7 @@ func (x *Exec) guardCheckMap(st *State, m ssa.Value, write bool) {
 	stt := ptrElem(obj.Type()).Underlying()
 	_ = stt
 	p := Val{Typ: fa.Type(), C: []Term{ov.T()}, Prefix: ov.prefix() + "." + fieldName(fa)}
-	x.guardCheckField(st, p.prefix(), ov.T(), write)
+	x.guardCheckField(st, p.prefix(), ov.T(), write, false)
 }
 
 func fieldName(fa *ssa.FieldAddr) string {
